@@ -71,6 +71,8 @@ func cmdHarness(args []string) int {
 	maxPaths := fs.Int64("maxpaths", 0, "stop after this many paths")
 	wall := fs.Duration("wall", 0, "wall budget")
 	doReplay := fs.Bool("replay", true, "replay violations natively")
+	solverMs := fs.Int("solverms", 0, "base solver timeout in ms")
+	maxSteps := fs.Int64("maxsteps", 0, "instruction budget per path")
 	params := paramFlag{}
 	fs.Var(params, "p", "harness parameter k=v (repeatable)")
 	fs.Parse(args)
@@ -102,6 +104,12 @@ func cmdHarness(args []string) int {
 	cfg.Trace = *trace
 	cfg.MaxPaths = *maxPaths
 	cfg.WallBudget = *wall
+	if *solverMs > 0 {
+		cfg.SolverTimeout = *solverMs
+	}
+	if *maxSteps > 0 {
+		cfg.MaxSteps = *maxSteps
+	}
 	ex := gosx.NewExplorer(P, f, params, cfg)
 	res := ex.Run()
 	printResult(res)
